@@ -30,6 +30,71 @@ type follower struct {
 	dead          bool // UpdateChainState failed: the store is no longer meaningful
 	rng           *vh.RNG
 	faults        int
+	// shadows are further consumers of the very same update values (another wallet of the same
+	// address, a wallet of another address): an update handed to one wallet must stay usable for the next
+	shadows []*follower
+}
+
+// digestUpdates renders everything of the updates a consumer relies on (element ids, leaf indices
+// and Merkle proofs of every diff); UpdateChainState must leave it unchanged.
+func digestUpdates(rus []chain.RevertUpdate, aus []chain.ApplyUpdate) string {
+	var sb strings.Builder
+	se := func(kind string, id any, e types.StateElement) { fmt.Fprintf(&sb, "%s %v %d %v\n", kind, id, e.LeafIndex, e.MerkleProof) }
+	for _, u := range rus {
+		for _, d := range u.SiacoinElementDiffs() {
+			se("sc", d.SiacoinElement.ID, d.SiacoinElement.StateElement)
+		}
+		for _, d := range u.SiafundElementDiffs() {
+			se("sf", d.SiafundElement.ID, d.SiafundElement.StateElement)
+		}
+		for _, d := range u.FileContractElementDiffs() {
+			se("fc", d.FileContractElement.ID, d.FileContractElement.StateElement)
+		}
+		for _, d := range u.V2FileContractElementDiffs() {
+			se("v2fc", d.V2FileContractElement.ID, d.V2FileContractElement.StateElement)
+		}
+	}
+	for _, u := range aus {
+		for _, d := range u.SiacoinElementDiffs() {
+			se("sc", d.SiacoinElement.ID, d.SiacoinElement.StateElement)
+		}
+		for _, d := range u.SiafundElementDiffs() {
+			se("sf", d.SiafundElement.ID, d.SiafundElement.StateElement)
+		}
+		for _, d := range u.FileContractElementDiffs() {
+			se("fc", d.FileContractElement.ID, d.FileContractElement.StateElement)
+		}
+		for _, d := range u.V2FileContractElementDiffs() {
+			se("v2fc", d.V2FileContractElement.ID, d.V2FileContractElement.StateElement)
+		}
+		cie := u.ChainIndexElement()
+		se("cie", cie.ID, cie.StateElement)
+	}
+	return sb.String()
+}
+
+// feedShadows hands the same update values to the other consumers and checks what they stored.
+func (f *follower) feedShadows(cm *chain.Manager, rus []chain.RevertUpdate, aus []chain.ApplyUpdate) {
+	for _, sh := range f.shadows {
+		if sh.dead {
+			continue
+		}
+		if err := sh.store.applyChunk(sh.w, rus, aus); err != nil {
+			sh.dead = true
+			f.tie.c.Oracle("shared-update-error", "a second wallet fed the same update values failed: %v", err)
+			continue
+		}
+		sn := sh.store.snapshot()
+		st, ok := (&chainNode{cm}).stateOf(sn.tip)
+		if !ok {
+			continue
+		}
+		for id, e := range sn.utxos {
+			if err := st.Elements.ValidateTransactionElements(types.V2Transaction{SiacoinInputs: []types.V2SiacoinInput{{Parent: e.Copy()}}}); err != nil {
+				f.tie.c.Oracle("shared-update-proof", "a second wallet fed the same update values as the first stored output %v with a Merkle proof that does not verify at %v: %v", id, sn.tip, err)
+			}
+		}
+	}
 }
 
 // chainNode is the node under test as the tie needs it.
@@ -87,6 +152,16 @@ func (f *follower) step(cm *chain.Manager) (bool, error) {
 			return true, nil
 		}
 	}
+	shadowsFirst := f.rng != nil && f.rng.Bool()
+	before := digestUpdates(rus, aus)
+	if shadowsFirst {
+		f.feedShadows(cm, rus, aus)
+	}
+	defer func() {
+		if after := digestUpdates(rus, aus); after != before {
+			f.tie.c.Oracle("update-mutated", "UpdateChainState modified the updates it was given (leaf indices / Merkle proofs of the element diffs differ afterwards): another consumer of the same values reads garbage")
+		}
+	}()
 	if err := f.store.applyChunk(f.w, rus, aus); err != nil {
 		f.dead = true
 		f.tie.c.Oracle("sync-error", "processing a chunk of %d reverts and %d applies from %v failed: %v", len(rus), len(aus), tip, err)
@@ -94,6 +169,9 @@ func (f *follower) step(cm *chain.Manager) (bool, error) {
 	}
 	if f.tie != nil {
 		f.tie.chunk(f, &chainNode{cm}, rus, aus)
+	}
+	if !shadowsFirst {
+		f.feedShadows(cm, rus, aus)
 	}
 	return true, nil
 }
@@ -174,6 +252,11 @@ func runHistory(name string, seed uint64, size int) []*vh.Case {
 		fs[i] = newFollower(w.W.sk, nd.CM, ch)
 		fs[i].tie = newTie(fmt.Sprintf("%s-chunk%d", name, ch), w.W.addr)
 		fs[i].rng = rng.Fork()
+		if ch == 2 || ch == 1000 {
+			fs[i].shadows = []*follower{newFollower(w.W.sk, nd.CM, ch), newFollower(w.O.sk, nd.CM, ch)}
+			defer fs[i].shadows[0].w.Close()
+			defer fs[i].shadows[1].w.Close()
+		}
 		defer fs[i].w.Close()
 	}
 	refs := []*refFollower{newRefFollower(w.W.sk, nd.CM, false), newRefFollower(w.W.sk, nd.CM, true)}
